@@ -752,6 +752,7 @@ def run(ctx):
         exhaustive_small(ctx, do)
 
     grid_cases(ctx, do)
+    web_walkers_case(ctx)
 
     bad = ctx.coq_check(IMPORTS, terms, tag="c21", shard=30)
     for nth, ix in enumerate(bad):
@@ -813,6 +814,129 @@ def grid_cases(ctx, do):
             do(Graph(spec), backend, "grid-%d" % i, "grid-" + profile)
         finally:
             backend.close()
+
+
+class _FakeRequest(object):
+    """what ManifestStreamer / DeepCheckStreamer need of a twisted.web request"""
+
+    def __init__(self):
+        self.data = []
+
+    def write(self, b):
+        self.data.append(b)
+
+    def registerProducer(self, producer, streaming):
+        pass
+
+    def unregisterProducer(self):
+        pass
+
+    def units(self):
+        return [json.loads(l) for l in b"".join(self.data).split(b"\n") if l]
+
+
+def web_walkers_spec():
+    """shared subdirectory reachable by two paths, a cycle through the root, one mutable file under its write cap and its
+    read cap, a CHK file linked twice, LIT files (one empty), an MDMF directory; every object without a verify cap is linked once"""
+    return {"objects": [
+        {"kind": "chk", "links": [], "size": 200}, {"kind": "chk", "links": [], "size": 3000},
+        {"kind": "lit", "links": [], "size": 12}, {"kind": "lit", "links": [], "size": 0, "empty": True}, {"kind": "mut", "links": []},
+        {"kind": "mdir", "links": [["f", 0, False], ["l", 2, False], ["m", 4, True], ["back", 7, True]]},
+        {"kind": "mdir", "mdmf": True, "links": [["s", 5, False], ["c", 1, False], ["e", 3, False]]},
+        {"kind": "mdir", "links": [["s", 5, True], ["mdmf", 6, True], ["m-ro", 4, False], ["c", 1, False]]}],
+        "root": [7, "rw"], "salt": 4242}
+
+
+def web_walkers_case(ctx):
+    """Forced in every run: the web API's own deep_traverse walkers (t=stream-manifest, t=stream-deep-check) and the result
+    objects of start_deep_check / start_deep_check_and_repair, on the real grid, one file with a share deleted."""
+    from allmydata.util import base32
+    from allmydata.web.directory import ManifestStreamer, DeepCheckStreamer
+    spec = web_walkers_spec()
+    G = Graph(spec)
+    backend = GridBackend(seed=ctx.seed)
+    case = {"graph": spec, "backend": "grid", "label": "web-walkers"}
+    try:
+        G.build(backend)
+        root = backend.root_node(G)
+        reach_objs = sorted(set(i for i, _ in G.reachable_views()))
+        stored = sorted(base32.b2a(G.si[i]).decode() for i in reach_objs if G.si[i] is not None)
+        cap2obj = {}
+        for (i, v), cap in G.caps.items():
+            cap2obj.setdefault(cap.decode("latin-1"), i)
+        kinds = {"directory": ("mdir", "idir", "ldir"), "file": ("chk", "lit", "mut"), "unknown": ("unk",)}
+        # one share of the first CHK file is deleted: an unhealthy, recoverable object
+        shares = backend.g.find_shares(G.caps[(0, "ro")])
+        backend.g.delete_share(shares[0])
+
+        def judge_units(which, units):
+            body, last = units[:-1], units[-1]
+            sis = sorted(u["storage-index"] for u in body if u["storage-index"])
+            seen = {}
+            for u in body:
+                i = cap2obj.get(u["cap"])
+                if i is None:
+                    ctx.oracle_fail("web-walker-reports-unknown-cap", "%s reports cap %r which belongs to no object of the graph" % (which, u["cap"]), case=case)
+                    continue
+                seen[i] = seen.get(i, 0) + 1
+                want = G.follow(tuple(u["path"]))
+                if want is None or G.caps[want].decode("latin-1") != u["cap"]:
+                    ctx.oracle_fail("web-walker-path-does-not-lead-to-reported-node", "%s unit %r: the path leads to %r" % (which, u["path"], None if want is None else G.caps[want]),
+                                    case=case)
+                if G.objects[i]["kind"] not in kinds[u["type"]]:
+                    ctx.oracle_fail("web-walker-wrong-type", "%s reports object %d (%s) as %r" % (which, i, G.objects[i]["kind"], u["type"]), case=case)
+            if sis != stored or sorted(seen) != reach_objs or any(n != 1 for n in seen.values()):
+                ctx.oracle_fail("web-walker-units-differ-from-reachable-objects",
+                                "%s reports storage indexes %r and objects %r; reachable from the root: storage indexes %r, objects %r, each expected once"
+                                % (which, sis, sorted(seen.items()), stored, reach_objs), case=case, expected=stored, observed=sis)
+            want_counts = {"count-directories": 3, "count-files": 5, "count-immutable-files": 2, "count-literal-files": 2, "count-mutable-files": 1, "count-unknown": 0}
+            got = {k: last.get("stats", {}).get(k) for k in want_counts}
+            if last.get("type") != "stats" or got != want_counts:
+                ctx.oracle_fail("web-walker-stats-differ-from-reachable-objects", "%s final stats unit counts %r, reachable distinct objects %r" % (which, got, want_counts),
+                                case=case, expected=want_counts, observed=got)
+            return body
+
+        def stream(which, make):
+            req = _FakeRequest()
+            walker = make(req)
+            monitor = root.deep_traverse(walker)
+            walker.setMonitor(monitor)
+            req.registerProducer(walker, True)
+            backend.finish(monitor)
+            return judge_units(which, req.units())
+
+        stream("stream-manifest", lambda req: ManifestStreamer(req, root))
+        body = stream("stream-deep-check", lambda req: DeepCheckStreamer(req, root, False, False, False))
+        nres = len([u for u in body if u["check-results"].get("storage-index")])
+        if nres != len(stored):
+            ctx.oracle_fail("web-walker-check-results-count", "stream-deep-check carries check results for %d stored objects, %d are reachable" % (nres, len(stored)), case=case)
+        unhealthy = len([u for u in body if not u["check-results"]["results"]["healthy"]])
+        ctx.count("web-walkers:unhealthy-objects-seen", unhealthy)
+
+        dres = backend.finish(root.start_deep_check())
+        c1 = dres.get_counters()
+        if c1["count-objects-checked"] != len(stored) or c1["count-objects-healthy"] + c1["count-objects-unhealthy"] != len(stored) \
+                or len(dres.get_all_results()) != len(stored):
+            ctx.oracle_fail("deep-check-counters-differ-from-reachable-objects",
+                            "start_deep_check counters %r (%d per-path results) for %d distinct reachable stored objects" % (c1, len(dres.get_all_results()), len(stored)),
+                            case=case, expected=len(stored), observed=c1)
+        rres = backend.finish(root.start_deep_check_and_repair())
+        c2 = rres.get_counters()
+        if c2["count-objects-checked"] != len(stored) or c2["count-objects-healthy-pre-repair"] + c2["count-objects-unhealthy-pre-repair"] != len(stored) \
+                or c2["count-objects-healthy-post-repair"] + c2["count-objects-unhealthy-post-repair"] != len(stored):
+            ctx.oracle_fail("deep-check-and-repair-counters-differ-from-reachable-objects",
+                            "start_deep_check_and_repair counters %r for %d distinct reachable stored objects" % (c2, len(stored)), case=case,
+                            expected=len(stored), observed=c2)
+        ctx.count("web-walkers:repairs-attempted", c2.get("count-repairs-attempted", 0))
+        stream("stream-deep-check-repair", lambda req: DeepCheckStreamer(req, root, False, True, False))
+        ctx.case(("web-walkers", ctx.seed), kind="grid-web-walkers")
+        ctx.trace(1)
+    except Exception as e:
+        import traceback
+        ctx.mismatch("web-walkers-raised", "web walkers case raised %s: %s" % (type(e).__name__, e), case=case,
+                     observed=traceback.format_exc()[-1500:], correspondence="deep-traverse-vs-model")
+    finally:
+        backend.close()
 
 
 class GridBackend(object):
@@ -882,7 +1006,8 @@ class GridBackend(object):
                 G.verify[i] = None
                 G.si[i] = None
             elif k == "mdir":
-                n = self.run(c.create_dirnode(unique_keypair=keypair()))
+                from allmydata.interfaces import MDMF_VERSION, SDMF_VERSION
+                n = self.run(c.create_dirnode(version=MDMF_VERSION if o.get("mdmf") else SDMF_VERSION, unique_keypair=keypair()))
                 self.nodes[i] = n
                 u = n.get_cap()
                 G.caps[(i, "rw")] = u.to_string()
